@@ -11,6 +11,9 @@ variable {W HS : Type}
 structure PneSpec (host : Host W HS) : Prop where
   cls : ∃ n, host.glob nNameError = some n ∧ ∀ x, host.isinst (host.pteraNameError x) n = true
   notFatal : ∀ x, isFatal (host.pteraNameError x) = false
+  /-- … and Python's own name error is one that `except NameError` catches -/
+  pyCls : ∃ n, host.glob nPyNameError = some n ∧ ∀ x, host.isinst (host.nameError x) n = true
+  pyNotFatal : ∀ x, isFatal (host.nameError x) = false
 
 /-- the variables after the instrumented globals in `done` have been read at entry -/
 def locAfter (c : ECtx W HS) (l0 : String → Option Val) (done : List String) : String → Option Val :=
@@ -245,40 +248,50 @@ theorem hookMeta_observer (c : ECtx W HS) (hg : HostGood c.host c.Good c.WInv) (
     rfl
   · exact ⟨sr.hs, rfl⟩
 
-/-- a closure variable whose cell holds a value: with an observing handler only the handler state changes -/
-theorem freeHook_observer (c : ECtx W HS) (hg : HostGood c.host c.Good c.WInv) (hobs : Observer c.host) (x : String)
-    (hx : isUser x = true) (hsc : c.scR x = false) (hgl : c.host.glob x ≠ none) (sr : St W HS) :
+/-- a closure variable: with an observing handler only the handler state changes — whether its cell holds a value
+    (the handler is shown it) or is still empty (the name error of the read is caught and nothing happens) -/
+theorem freeHook_observer (c : ECtx W HS) (hg : HostGood c.host c.Good c.WInv) (hobs : Observer c.host)
+    (pne : PneSpec c.host) (x : String)
+    (hx : isUser x = true) (hsc : c.scR x = false) (sr : St W HS) :
     ∃ hs1, freeHook c.envR x sr = (.ok (), { sr with hs := hs1 }) := by
-  obtain ⟨v, hv⟩ : ∃ v, c.host.glob x = some v := by
-    cases h : c.host.glob x with
-    | none => exact absurd h hgl
-    | some v => exact ⟨v, rfl⟩
-  have hgv : c.Good v := hg.glob x v hx hv
-  have hlook : lookup c.envR x sr = (.ok v, sr) := by
-    unfold lookup lookupV
-    simp [ECtx.envR, hsc, hv]
+  obtain ⟨ncls, hn, hinst⟩ := pne.pyCls
   unfold freeHook
   simp only [ECtx.envR]
   rw [bind_def_M]
-  rw [show lookup { host := c.host, sc := c.scR, hk := some c.cfg } x sr = lookup c.envR x sr from rfl, hlook]
-  simp only
-  split
-  · refine ⟨(c.host.hnd { name := x, key := .noneV, ann := annValOpt c.envR none, value := v, ovr := false } sr.hs).2, ?_⟩
-    rw [bind_def_M]
-    rw [show interactSem { host := c.host, sc := c.scR, hk := some c.cfg } x .noneV
-        (annValOpt { host := c.host, sc := c.scR, hk := some c.cfg } none) v false sr
-        = interactSem c.envR x .noneV (annValOpt c.envR none) v false sr from rfl,
-      observe c hobs x .noneV _ v false (hg.notMarker v hgv) sr]
-    rfl
-  · exact ⟨sr.hs, rfl⟩
+  cases hgl : c.host.glob x with
+  | none =>
+    have hlook : lookup { host := c.host, sc := c.scR, hk := some c.cfg } x sr = (.err (c.host.nameError x), sr) := by
+      unfold lookup lookupV
+      simp [hsc, hgl]
+    refine ⟨sr.hs, ?_⟩
+    rw [hlook]
+    simp only [pne.pyNotFatal x, Bool.false_eq_true, if_false, hn, hinst x, if_true]
+  | some v =>
+    have hgv : c.Good v := hg.glob x v hx hgl
+    have hlook : lookup { host := c.host, sc := c.scR, hk := some c.cfg } x sr = (.ok v, sr) := by
+      unfold lookup lookupV
+      simp [hsc, hgl]
+    rw [hlook]
+    simp only
+    by_cases hi : shouldInstr c.cfg x [] = true
+    · refine ⟨(c.host.hnd { name := x, key := .noneV, ann := annValOpt c.envR none, value := v, ovr := false } sr.hs).2, ?_⟩
+      simp only [hi, if_true]
+      rw [show interactSem { host := c.host, sc := c.scR, hk := some c.cfg } x .noneV
+          (annValOpt { host := c.host, sc := c.scR, hk := some c.cfg } none) v false sr
+          = interactSem c.envR x .noneV (annValOpt c.envR none) v false sr from rfl,
+        observe c hobs x .noneV _ v false (hg.notMarker v hgv) sr]
+    · simp only [Bool.not_eq_true] at hi
+      simp only [hi, Bool.false_eq_true, if_false]
+      exact ⟨sr.hs, rfl⟩
 
-theorem freeHooks_observer (c : ECtx W HS) (hg : HostGood c.host c.Good c.WInv) (hobs : Observer c.host) :
-    (xs : List String) → (∀ x ∈ xs, isUser x = true ∧ c.scR x = false ∧ c.host.glob x ≠ none) → ∀ sr : St W HS,
+theorem freeHooks_observer (c : ECtx W HS) (hg : HostGood c.host c.Good c.WInv) (hobs : Observer c.host)
+    (pne : PneSpec c.host) :
+    (xs : List String) → (∀ x ∈ xs, isUser x = true ∧ c.scR x = false) → ∀ sr : St W HS,
     ∃ hs1, freeHooks c.envR xs sr = (.ok (), { sr with hs := hs1 })
   | [], _, sr => ⟨sr.hs, rfl⟩
   | x :: xs, h, sr => by
-    obtain ⟨hs1, h1⟩ := freeHook_observer c hg hobs x (h x (by simp)).1 (h x (by simp)).2.1 (h x (by simp)).2.2 sr
-    obtain ⟨hs2, h2⟩ := freeHooks_observer c hg hobs xs (fun y hy => h y (by simp [hy])) { sr with hs := hs1 }
+    obtain ⟨hs1, h1⟩ := freeHook_observer c hg hobs pne x (h x (by simp)).1 (h x (by simp)).2 sr
+    obtain ⟨hs2, h2⟩ := freeHooks_observer c hg hobs pne xs (fun y hy => h y (by simp [hy])) { sr with hs := hs1 }
     refine ⟨hs2, ?_⟩
     simp only [freeHooks]
     rw [bind_def_M, h1]
@@ -378,7 +391,7 @@ theorem erasure (host : Host W HS) (cfg : Cfg) (f : FunDef) (fuel : Nat) (Good :
     (hg : HostGood host Good WInv) (hobs : Observer host) (pne : PneSpec host)
     (hf : coreF f = true) (hnd : noDeclB (bodyWithReturn f) = true) (st0 : St W HS)
     (hext : ∀ x ∈ (collect f).external, st0.loc x = none)
-    (hcell : ∀ x ∈ f.freevars, (collect f).assigned.contains x = false ∧ host.glob x ≠ none)
+    (hcell : ∀ x ∈ f.freevars, (collect f).assigned.contains x = false)
     (hpar : ∀ p ∈ f.params, st0.loc p.name ≠ none)
     (hgood : ∀ x v, st0.loc x = some v → Good v) (hinp : ∀ cmd ∈ st0.inp, GoodCmd Good cmd)
     (hcur : ∀ e ∈ st0.cur, Good e) (hw : WInv st0.w) :
@@ -462,10 +475,10 @@ theorem erasure (host : Host W HS) (cfg : Cfg) (f : FunDef) (fuel : Nat) (Good :
     simp only [hne, false_and, if_false]
     exact hpar p hp
   -- closure variables: only the handler state moves
-  have hF : ∀ x ∈ sortNames (collect f).free, isUser x = true ∧ c.scR x = false ∧ c.host.glob x ≠ none := by
+  have hF : ∀ x ∈ sortNames (collect f).free, isUser x = true ∧ c.scR x = false := by
     intro x hx
     have hxf : x ∈ f.freevars := by simpa [collect] using (mem_sortNames x _).1 hx
-    refine ⟨hfu x hxf, ?_, (hcell x hxf).2⟩
+    refine ⟨hfu x hxf, ?_⟩
     have hne : (collect f).external.contains x = false := by
       cases hc : (collect f).external.contains x
       · rfl
@@ -475,8 +488,8 @@ theorem erasure (host : Host W HS) (cfg : Cfg) (f : FunDef) (fuel : Nat) (Good :
         rw [hfc] at this
         exact absurd this.2.2 (by decide)
     show scopeRef cfg f x = false
-    simp only [scopeRef, (hcell x hxf).1, hne, Bool.false_and, Bool.or_self]
-  obtain ⟨hs3, hm3⟩ := freeHooks_observer c hgc hobc (sortNames (collect f).free) hF
+    simp only [scopeRef, hcell x hxf, hne, Bool.false_and, Bool.or_self]
+  obtain ⟨hs3, hm3⟩ := freeHooks_observer c hgc hobc pne (sortNames (collect f).free) hF
     { st0 with hs := hs2, loc := locAfter c st0.loc (sortNames (collect f).external) }
   have hrel := hrel.congrHs hs3
   have hparR : ∀ p ∈ f.params,
